@@ -16,6 +16,7 @@ func init() {
 		Assumptions: trustedBase,
 		Run: func(m *Model, s *Sink) {
 			m.RunLayout(s, "R-LAYOUT")
+			m.RunPathAPI(s, "R-PATHAPI")
 			var fns []*ssa.Function
 			for _, n := range []string{"evalUseStmt", "evalReserveStmt"} {
 				if fn := m.Method("evaluator", "Evaluator", n); fn != nil {
